@@ -32,7 +32,7 @@ def run(ctx):
     bad = [s for s in sites if s[0] != wm.id]
     ctx.ob(['C14', 'C19'], 'R-REACH', 'C14-D1|only-writer', not bad and len(sites) >= 2, 'files and directories are created only by write_module: %s' % sites, where)
     fw = [c for c in wm.calls(lambda r: r['path'] == 'std::fs::write')]
-    ctx.ob(['C14'], 'R-REACH', 'C14-D1|one-file-per-call', len(fw) == 1, 'write_module writes exactly one file (%d fs::write sites)' % len(fw), where)
+    ctx.ob(['C14', 'C09'], 'R-REACH', 'C14-D1|one-file-per-call', len(fw) == 1, 'write_module writes exactly one file, replacing whatever was there (%d fs::write sites)' % len(fw), where)
     # early return only for the root module
     early = [x for x in oks if fw and fw[0]['block'] not in {b for b in wm.normal_blocks() if x['block'] in wm.reach(b)} or (fw and not unreachable_without(wm, x['block'], {fw[0]['block']}))]
     ok_early = True
